@@ -5,7 +5,12 @@ from __future__ import annotations
 import z3
 
 from pvc.contract import Call, Contract
-from pvc.sym import SObj, SReal, Unsupported, to_int
+from pvc.sym import SNum, SObj, SReal, Unsupported, to_int
+
+
+def num_wrap(z):
+    return SNum(z)
+
 from pvc.symtheory import Expr, ExprV, SDict2V, SDictV, SSetV, Str, StrV, Sym, SymV, card_f, fs_f, member_f, real_wrap
 
 
@@ -21,9 +26,9 @@ class Definition:
         self.sm = SDictV(P, "state_model", Sym, Expr, SymV, ExprV)
         self.cm = SDictV(P, "calibration_map", Sym, z3.RealSort(), SymV, real_wrap)
         if noise_keys == "Sym":
-            self.pn = SDictV(P, "process_noise", Sym, z3.RealSort(), SymV, real_wrap)
+            self.pn = SDictV(P, "process_noise", Sym, z3.RealSort(), SymV, num_wrap)  # values: numbers of any Python class (float, int, numpy scalar, sympy number)
         else:
-            self.pn = SDictV(P, "process_noise", Str, z3.RealSort(), StrV, real_wrap)  # keys that are not Symbols
+            self.pn = SDictV(P, "process_noise", Str, z3.RealSort(), StrV, num_wrap)  # keys that are not Symbols
         self.noise_keys = noise_keys
         self.sensors = SDict2V(P, "sensor_models", Expr, ExprV)
         self.snoise = SDict2V(P, "sensor_noises", z3.RealSort(), real_wrap)
